@@ -99,9 +99,9 @@ def r2_precision(ctx, chk, rule="C04.2"):
     if not tc["floor_uses_threshold"]:
         chk.violation(rule, tc["where"], "self.floor = %s does not depend on the threshold" % tc["floor_src"],
                       expected="digits derived from the threshold", found=tc["floor_src"], construct="Solver.__init__ floor constant")
-    elif abs(d + math.log10(T)) >= 1 or d < 1:
+    elif not (10.0 ** -d <= T * (1 + 1e-9) and 10.0 ** -d > (T / 10) * (1 + 1e-9)) or d < 1:
         chk.violation(rule, tc["where"], "rounding to %d digits does not match the threshold %g (10^-%d = %g)" % (d, T, d, 10.0 ** -d),
-                      expected="10^-d within one decade of the threshold", found="d=%d from `%s`" % (d, tc["floor_src"]),
+                      expected="threshold/10 < 10^-d <= threshold", found="d=%d from `%s`" % (d, tc["floor_src"]),
                       construct="Solver.__init__ floor mismatch")
     else:
         chk.ok(rule, tc["where"], "threshold %g (from `%s` at %s) -> self.floor = %s = %d; 10^-%d matches the threshold" % (
